@@ -10,6 +10,7 @@ import (
 	"os"
 	"os/exec"
 	"path/filepath"
+	"sort"
 	"sync/atomic"
 	"syscall"
 	"time"
@@ -72,14 +73,29 @@ var descCache = map[string]*thrift.TypeDescriptor{}
 // DescFromIDL parses a harness-generated IDL (tbin.IDL layout: service Svc { X M(1: X req) }) and
 // returns the descriptor of the request struct X, or of X's field 1 if inner. Cached per process.
 func DescFromIDL(idl string, inner bool) (*thrift.TypeDescriptor, error) {
+	return DescFromIDLInc(idl, nil, inner)
+}
+
+// DescFromIDLInc: the same for a program whose main file includes other files (path -> text).
+func DescFromIDLInc(idl string, inc map[string]string, inner bool) (*thrift.TypeDescriptor, error) {
 	k := idl
 	if inner {
 		k = "inner:" + idl
 	}
+	if len(inc) > 0 {
+		var ks []string
+		for p := range inc {
+			ks = append(ks, p)
+		}
+		sort.Strings(ks)
+		for _, p := range ks {
+			k += "\x00" + p + "\x00" + inc[p]
+		}
+	}
 	if d, ok := descCache[k]; ok {
 		return d, nil
 	}
-	svc, err := thrift.Options{}.NewDescritorFromContent(context.Background(), "a/b/main.thrift", idl, nil, false)
+	svc, err := thrift.Options{}.NewDescritorFromContent(context.Background(), "a/b/main.thrift", idl, inc, false)
 	if err != nil {
 		return nil, fmt.Errorf("parse IDL: %v", err)
 	}
@@ -141,10 +157,11 @@ func ConvertLocal(d *thrift.TypeDescriptor, bits int, doc []byte) (o Outcome) {
 // ---- wire protocol: 4-byte big-endian length + JSON body ----
 
 type Req struct {
-	IDL   string `json:"idl"`
-	Inner bool   `json:"inner"`
-	Opts  []int  `json:"opts"`
-	Doc   []byte `json:"doc"`
+	IDL   string            `json:"idl"`
+	Inner bool              `json:"inner"`
+	Inc   map[string]string `json:"inc,omitempty"` // included files of the program (path -> text)
+	Opts  []int             `json:"opts"`
+	Doc   []byte            `json:"doc"`
 }
 type Resp struct {
 	Res    []Outcome `json:"res"`
@@ -205,7 +222,7 @@ func ServerMain() {
 		}
 		atomic.StoreInt64(&busySince, time.Now().UnixNano())
 		rs := Resp{Native: verifhook.C18HasNative}
-		d, err := DescFromIDL(rq.IDL, rq.Inner)
+		d, err := DescFromIDLInc(rq.IDL, rq.Inc, rq.Inner)
 		if err != nil {
 			rs.Fatal = err.Error()
 		} else {
